@@ -94,6 +94,11 @@ CHECKS = {
     note="Trusts TLC/SANY, Go toolchain; the text oracle is differential against the JSON line validated under C07 (as the property is stated). The context string is written verbatim by the layout; it is generated without control characters.",
     technique="TLA+ spec (Encoder text machine + FileLine law) model-checked with TLC; text output compared with the line rebuilt from the real JSON tokens",
     design="4/C07-C08", engine="encoder"),
+ "C17": dict(
+    text="ExprParser.tla is a pushdown recogniser for the expression grammar at token level with the flattening semantics as state (assignments recorded by token position in document order; 'type' on entering each expression; later assignments win). TLC grows every token string of <= 8 (quick) / 9 (thorough) tokens whose proper prefixes are viable - each viable prefix extended by every admissible and every inadmissible token, and cut off at end of input - and 3000 / 30000 simulated viable strings up to 40 tokens and nesting 6, emitting verdict and assignments. Tokens are concretised (identifiers incl. keyword-like ones, integers with sign / hex / beyond int64, floats in every grammar form, string literals with every admitted escape, raw line breaks, non-ASCII) with arbitrary spacing and fed to expr.Parse: accepted strings must yield exactly the flattened map and no error, all others an error and no map, never a panic. Random, mutated and deeply nested inputs up to 64 KiB exercise totality under a watchdog.",
+    note="Trusts TLC/SANY, Go toolchain. The lexeme forms are a hand-written concretisation table (the model is token-level); blank input returning (nil, nil) is accepted as pinned by the suite.",
+    technique="TLA+ spec (ExprParser pushdown automaton with flattening) enumerated by TLC; every token string replayed on expr.Parse",
+    design="4/C17", engine="exprparse"),
 }
 
 NOT_YET = {}
